@@ -2,6 +2,8 @@ package main
 
 import (
 	"fmt"
+	"os"
+	"strconv"
 	"go/types"
 	"strings"
 
@@ -154,6 +156,13 @@ func (ex *Exec) registerIntrinsics() {
 		}
 		return ret1(st, nil)
 	}
+	I["verif:verifnoerr"] = func(ex *Exec, st *State, call *ssa.CallCommon, a []Value) []Outcome {
+		e := a[0].(IfaceV)
+		if e.typ != nil && os.Getenv("VERIF_DEBUG") != "" {
+			fmt.Fprintf(os.Stderr, "verifNoErr: symbolic error value: %s\n", ex.describe(st, e))
+		}
+		return I["verif:verifassert"](ex, st, call, []Value{tt.Bool(e.typ == nil), a[1]})
+	}
 	I["verif:verifreach"] = func(ex *Exec, st *State, _ *ssa.CallCommon, a []Value) []Outcome {
 		msg := ex.argStr(st, a[0])
 		ex.reach[msg]++
@@ -303,7 +312,46 @@ func (ex *Exec) registerIntrinsics() {
 
 	// numeric text parsing: nondeterministic result (value, maybe error)
 	parse := func(kind Kind, w int) intrinsic {
-		return func(ex *Exec, st *State, _ *ssa.CallCommon, a []Value) []Outcome {
+		return func(ex *Exec, st *State, call *ssa.CallCommon, a []Value) []Outcome {
+			// concrete text: the real strconv decides
+			if cs, ok := ex.concreteStr(st, a[0].(SliceV)); ok {
+				allConst := true
+				for _, x := range a[1:] {
+					if t, isT := x.(*Term); !isT || !t.IsConst() {
+						allConst = false
+					}
+				}
+				if allConst {
+					name := ""
+					if call != nil {
+						if f := call.StaticCallee(); f != nil {
+							name = f.Name()
+						}
+					}
+					var v Value
+					var err error
+					switch name {
+					case "ParseInt":
+						var n int64
+						n, err = strconv.ParseInt(cs, int(sext(a[1].(*Term).c, 64)), int(a[2].(*Term).c))
+						v = tt.BV(uint64(n), 64)
+					case "ParseUint":
+						var n uint64
+						n, err = strconv.ParseUint(cs, int(sext(a[1].(*Term).c, 64)), int(a[2].(*Term).c))
+						v = tt.BV(n, 64)
+					case "ParseFloat":
+						var f float64
+						f, err = strconv.ParseFloat(cs, int(a[1].(*Term).c))
+						v = tt.FP(f)
+					}
+					if v != nil {
+						if err != nil {
+							return ret1(st, TupleV{v, ex.newError(st, err.Error())})
+						}
+						return ret1(st, TupleV{v, IfaceV{}})
+					}
+				}
+			}
 			ex.assumes["strconv parsing is a nondeterministic stub (any value, with or without error)"] = true
 			s2 := st.clone()
 			var v Value
